@@ -63,6 +63,48 @@ class Image:
         self._sorted = False
         self.size = max(self.size, off + n)
 
+    def patch(self, off: int, data: bytes):
+        """overwrite bytes [off, off+len(data)) (used by the mutators); keeps segments non-overlapping"""
+        if not data:
+            return self
+        end = off + len(data)
+        out = []
+        for so, sn, kind, arg in self.segs:
+            se = so + sn
+            if se <= off or so >= end:
+                out.append((so, sn, kind, arg))
+                continue
+            if so < off:
+                out.append((so, off - so, kind, arg[: off - so] if kind == "hex" else arg))
+            if se > end:
+                out.append((end, se - end, kind, arg[end - so:] if kind == "hex" else arg))
+        out.append((off, len(data), "hex", bytes(data)))
+        self.segs = out
+        self._sorted = False
+        self.size = max(self.size, end)
+        return self.finish(self.size)
+
+    def truncate(self, size: int):
+        out = []
+        for so, sn, kind, arg in self.segs:
+            if so >= size:
+                continue
+            if so + sn > size:
+                n = size - so
+                out.append((so, n, kind, arg[:n] if kind == "hex" else arg))
+            else:
+                out.append((so, sn, kind, arg))
+        self.segs = out
+        self.size = size
+        self._sorted = False
+        return self.finish(size)
+
+    def copy(self):
+        im = Image(self.size)
+        im.segs = list(self.segs)
+        im._sorted = False
+        return im.finish(self.size)
+
     def finish(self, size: int | None = None):
         if size is not None:
             self.size = size
